@@ -81,7 +81,15 @@ ASSUMPTIONS = [
     "unobserved copy not summed, M5 pillow variable also in the district, D1 two copies reach line 9, D2 several worlds get the "
     "union of subscripts). A blamed step that shows NONE of the patterns gets the key 'none', which is never listed, i.e. it is "
     "reported as a new violation; a failure that cannot be located (crashes, other steps) is keyed by its shrunk input as "
-    "before. A new defect that only ever co-occurs with a listed pattern at the same step would be masked",
+    "before. Attribution to a listed finding needs TWO things: the blamed step shows a listed pattern AND the Lean model -- the "
+    "correspondence-checked copy of the code the findings were written about -- returns the very same answer on that input under the "
+    "same iteration order (one driver call per failing input); a wrong answer that differs from the model's gets the never-listed key "
+    "[differs-from-the-wrong-answer-of-the-modelled-code, ...] and shrinking keeps that key.  A new defect that only ever co-occurs "
+    "with a listed pattern at the same step AND leaves the answer of the unchanged code untouched there would still be masked",
+    "vocabulary: an estimand with a term that mixes variables of different worlds is a failure of kind 'vocabulary' whatever its value "
+    "(a counterfactual joint distribution is not an interventional term: nothing has been identified, and the reading convention of the "
+    "property -- 'literal values for intervention subscripts' of a term -- does not apply to it); the unchanged code never returns one "
+    "(idstar_vocab, Props/C06Cf.lean); seeded/C06b is caught by this clause with a concrete replay",
 ]
 EXHAUSTIVE = {"quick": False, "thorough": True}   # thorough: every graph on <=2 nodes x every event with <=2 conjuncts
 LEANCHECK_MODULES = ["Y0.Model.Cg", "Y0.Model.IdStar", "Y0.Props.C07"]
@@ -212,6 +220,14 @@ def _judge(case, res, exc, n_models):
         # the evaluator has no opinion on such a term (it is not a distribution), so it must be rejected here
         return (f"estimand {expr} contains the term {bad} whose subscript set gives one variable both values: it denotes "
                 "nothing, so it cannot equal P(event)"), "illformed"
+    if not single_world(expr):
+        # the property is about ESTIMANDS: expressions over interventional distributions, whose "intervention subscripts" the
+        # reading convention speaks of.  A term whose variables carry different subscript sets is a joint distribution over
+        # several worlds -- the very kind of quantity ID* exists to eliminate (its value may well equal P(event): so does the
+        # event itself).  Never produced by the unchanged code (theorem idstar_vocab, Props/C06Cf.lean); never a listed finding.
+        mixed = next(lf for lf in S.leaves(expr) if not single_world(lf))
+        return (f"estimand {expr} contains the term {mixed} that mixes variables of different worlds: it is a counterfactual "
+                "joint distribution, not an interventional term, so nothing has been identified"), "vocabulary"
     w = S.check_estimand(g, ev, expr, case.get("seed", 0), n_models=n_models)
     return (None, None) if w is None else (f"estimand {expr} differs from P(event): {w}", "value")
 
@@ -625,6 +641,43 @@ def _coarse_key(case, r):
     return json.dumps([r["kind"], step, tags[0] if tags else "none"])
 
 
+def _same_wrong_answer_as_model(case, r):
+    """A located wrong answer is attributed to a LISTED finding only when the Lean MODEL of id_star -- the correspondence-checked
+    copy of the code the findings were written about -- gives the very same answer on this input under the same iteration order:
+    the listed finding explains THAT wrong answer, not any other wrong answer the real code may give on an input on which the
+    unchanged code is wrong as well.  Returns (same?, model's answer); (True, None) when the driver is not available."""
+    try:
+        m = canon_model(case, C.parse(C.LeanModel().ask(request(case))))
+    except Exception:  # noqa: BLE001
+        return True, None
+    if not m or m[0] != "orders":
+        return True, None
+    mans = m[1]
+    st = r.get("strategy")
+    if st is None:
+        return (r["unpatched"] in mans), (mans[0] if mans else None)
+    strategies = [tuple(s_) for s_ in K.id_strategies(case["event"])]
+    if tuple(st) not in strategies:
+        return True, None
+    i = strategies.index(tuple(st))
+    if i >= len(mans) or i >= len(r["by_order"]):
+        return True, None
+    return r["by_order"][i] == mans[i], mans[i]
+
+
+def _attributed_key(case, r):
+    """(_coarse_key sharpened by the comparison with the model, text to append to the failure message)"""
+    ck = _coarse_key(case, r)
+    if ck is not None and r["kind"] in ("value", "zero") and json.loads(ck)[0] in ("value", "zero"):
+        same, mans = _same_wrong_answer_as_model(case, r)
+        if not same:
+            # never listed: a wrong answer that is not the wrong answer of the code the findings describe
+            return json.dumps(["differs-from-the-wrong-answer-of-the-modelled-code", json.loads(ck)]), \
+                (" [the MODEL of id_star (Y0/Model/IdStar.lean), about which the listed finding was written, answers "
+                 f"{json.dumps(mans)[:300]} on this input: the listed finding does not explain this wrong answer]")
+    return ck, ""
+
+
 SHRINK = K.Shrinker(PROP, ("event",), _evaluate, ("g", "event", "seed"))
 
 
@@ -655,8 +708,9 @@ def run_python(case):
     nontrivial = r["in_domain"] and K.n_worlds(ev) >= 1 and bool(case["g"]["di"] or case["g"]["bi"]) and past3 and \
         shape in ("P", "sum", "prod", "unidentifiable", "zero")
     out = {"out": ["orders", by_order, r["flags"]], "fail": r["fail"], "nontrivial": bool(nontrivial), "tags": tags}
-    ck = _coarse_key(case, r) if r["fail"] else None
+    ck, note = _attributed_key(case, r) if r["fail"] else (None, "")
     if ck is not None:
+        out["fail"] += note
         out["finding_key"] = ck
     elif r["fail"] and not case.get("_noshrink"):
         small, key = SHRINK.shrink_to_key(case, r["kind"])
@@ -719,7 +773,7 @@ def _shrink_same_key(case, key0, budget=120):
                 break
             try:
                 r = _evaluate(cand, with_unpatched=False)
-                ok = bool(r["fail"]) and _coarse_key(cand, r) == key0
+                ok = bool(r["fail"]) and _attributed_key(cand, r)[0] == key0
             except Exception:
                 continue
             if ok:
@@ -733,7 +787,7 @@ def shrink(case):
         return
     r = _evaluate(case)
     if r["fail"]:
-        key0 = _coarse_key(case, r)
+        key0 = _attributed_key(case, r)[0]
         if key0 is not None:
             small = _shrink_same_key(case, key0)
         else:
@@ -745,7 +799,7 @@ def finding_key(case, res):
     if res.get("finding_key"):
         return res["finding_key"]
     r = _evaluate(case)
-    return _coarse_key(case, r) or SHRINK.key_of(case, r["kind"])
+    return _attributed_key(case, r)[0] or SHRINK.key_of(case, r["kind"])
 
 
 MANIFEST = {
@@ -776,6 +830,7 @@ MANIFEST = {
              "all set-iteration orders (the fragment membership tests are part of the compared output); the reading convention of "
              "estimands stated in ASSUMPTIONS; sampled models (8 per case). One small defect was fixed (line 9 marginalisation, "
              "4295b26); the F10 family stays open: 10 finding keys for C07 (failure kind x step of the blamed recursive call x known "
-             "defect pattern), each with a minimal example."),
+             "defect pattern), each with a minimal example; a wrong answer is excused by a listed finding only if the model returns the same "
+             "wrong answer on that input; an estimand with a multi-world term is a failure whatever its value."),
     "technique": "Lean 4 theorems (termination; soundness on single-world events of any polarity, on what lines 2-3 reduce to them and on multi-world events with a clean counterfactual graph, over all functional SCMs; Zero and refusal characterisations; lines 2-3-5; error taxonomy; vocabulary invariant) + differential correspondence + exact-rational functional-SCM oracle + located known findings",
 }
